@@ -658,6 +658,7 @@ class LMDBStorage(BaseStorage):
         await self.validate_event(event, Config)
 
         if not event.is_ephemeral:
+            check_indexable(event)
             with self.db.begin(buffers=True) as txn:
                 if get_event_data(txn, event.id_bytes):
                     # already stored: nothing to write, nobody to notify
@@ -1193,6 +1194,21 @@ def decode_event(data: tuple) -> Event:
             sig=data[7].hex(),
         )
         return event
+
+
+def check_indexable(event: Event):
+    """
+    The writer thread works after the event was acknowledged,
+    so refuse here what the index key layout cannot represent:
+    4-byte created_at and kind, tags that are not lists of strings
+    """
+    if not (0 <= event.created_at < 2**32 and 0 <= event.kind < 2**32):
+        raise StorageError("invalid: created_at or kind out of range")
+    try:
+        for key in INDEXES["tags"].convert(event):
+            pass
+    except (TypeError, AttributeError):
+        raise StorageError("invalid: bad tags")
 
 
 def get_d_tag(event: Event) -> str:
